@@ -144,7 +144,7 @@ class Machine:
         """The private change-point table, read only (for DRIFT detection against spec/ChangePoints.tla)."""
         try:
             fm = obj._fmts if k == 'S' else obj._s._fmts
-            return [[int(key), [[self.inst_id(x), self.texts.tid(str(x))] for x in pt.add],
+            return [[clamp(int(key)), [[self.inst_id(x), self.texts.tid(str(x))] for x in pt.add],
                      [[self.inst_id(x), self.texts.tid(str(x))] for x in pt.rem]] for key, pt in sorted(fm.items())]
         except Exception:
             return [[-1, [], []]]
